@@ -172,10 +172,10 @@ def subst_vars(t, nfs):
     """normal form of `t` given the normal forms of all variables"""
     if isinstance(t, str):
         return t
-    if len(t) == 2 and t[0] == "tvar":
+    if len(t) == 2 and t[0] == "tvar" and isinstance(t[1], str):
         i = int(t[1])
         return nfs[i] if i < len(nfs) else t
-    return [t[0]] + [subst_vars(x, nfs) for x in t[1:]]
+    return [subst_vars(x, nfs) for x in t]
 
 
 def run_solve(ctx):
